@@ -137,14 +137,11 @@ class Catalogue:
                         yield ent, p, e
 
 
-_CATS = {}
-
-
 def catalogue(analysis, cls):
-    k = (id(analysis), cls.qual)
-    if k not in _CATS:
-        _CATS[k] = Catalogue(analysis, cls)
-    return _CATS[k]
+    cats = analysis.__dict__.setdefault("_cats", {})
+    if cls.qual not in cats:
+        cats[cls.qual] = Catalogue(analysis, cls)
+    return cats[cls.qual]
 
 
 def profile_map(analysis):
